@@ -265,8 +265,8 @@ Definition dot : rx := ch 46%N.
 Definition underscore : rx := ch 95%N.
 Definition expo_e : rx := chs [101; 69]%N.                                   (* e E *)
 Definition hexdigit : rx := XCls (Cls false false [CI_range 48%N 57%N; CI_range 97%N 102%N; CI_range 65%N 70%N]).
-(* ASCII white space as str.isspace / Py_UNICODE_ISSPACE below 128: \t \n \v \f \r \x1c-\x1f space *)
-Definition wspace : rx := XCls (Cls false false [CI_range 9%N 13%N; CI_range 28%N 32%N]).
+(* the ASCII white space that float() / int() strip: \t \n \v \f \r and space (NOT \x1c-\x1f, although str.isspace) *)
+Definition wspace : rx := XCls (Cls false false [CI_range 9%N 13%N; CI_char 32%N]).
 
 (* --- Python's float(): library reference, "float" (ASCII digits)
      sign ::= "+" | "-"       infinity ::= "Infinity" | "inf"      nan ::= "nan"
@@ -305,7 +305,7 @@ Definition alpha_real : cls := Cls false false [CI_char 43%N; CI_char 45%N; CI_c
 Definition alpha_sci : cls :=
   Cls false false [CI_char 43%N; CI_char 45%N; CI_char 46%N; CI_range 48%N 57%N; CI_char 101%N; CI_char 69%N].
 Definition alpha_hex : cls := Cls false false [CI_range 48%N 57%N; CI_range 97%N 102%N; CI_range 65%N 70%N].
-Definition alpha_no_ws_us : cls := Cls false true [CI_range 9%N 13%N; CI_range 28%N 32%N; CI_char 95%N].    (* not space, not _ *)
+Definition alpha_no_ws_us : cls := Cls false true [CI_range 9%N 13%N; CI_char 32%N; CI_char 95%N].    (* not space, not _ *)
 Definition alpha_ascii : cls := Cls false false [CI_range 0%N 127%N].
 
 Definition leading_dot : rx := starts_with (XCat (xopt sign) dot).          (* [sign] "." ... *)
@@ -410,8 +410,9 @@ Fixpoint horner (base : Z) (acc : Z) (s : str) : option Z :=
          end
   end.
 
+Definition is_pyspace (c : char) : bool := in_range 9%N 13%N c || N.eqb c 32%N.
 Fixpoint strip_left (s : str) : str :=
-  match s with c :: t => if is_space_char c then strip_left t else s | [] => [] end.
+  match s with c :: t => if is_pyspace c then strip_left t else s | [] => [] end.
 Definition strip (s : str) : str := rev (strip_left (rev (strip_left s))).
 
 Definition drop_hex_prefix (s : str) : str :=
